@@ -3,6 +3,7 @@ unchunk of tangermeme.utils, tied to coq/C15 (executable model + pointwise spec)
 
 Every case is a two-stage pipeline of real API calls (see coq/C15/Spec.v `call`); the outcome
 is what each stage returned (None = it, or the stage before it, raised)."""
+import importlib
 import itertools
 
 import numpy
@@ -185,11 +186,15 @@ def _view(cols, A, dtype):
     return torch.tensor(cols, dtype=torch.int64).to(dt).T
 
 
-def run_impl(inp):
+def run_impl(inp, _nested=False):
     from tangermeme import utils
+    if 'pre' in inp and not _nested:
+        # a case that brings its own history starts from a freshly loaded module, so that it fails or
+        # passes on its own (shrinking and --replay then keep exactly the earlier calls that matter)
+        importlib.reload(utils)
     for p in inp.get('pre', []):                 # earlier calls in the same process, results discarded
         try:
-            run_impl(p)
+            run_impl(p, _nested=True)
         except Exception:
             pass
     k = inp['kind']
@@ -301,7 +306,7 @@ def val_lit(v):
         return 'Err'
     tag, d = v
     if d == BAD or (tag == 'batch' and any(x == BAD for x in d)):
-        return '(Ok (VBatch [[[[(-7)]]]; [[[(-7)]]]; [[[(-7)]]]; [[[(-7)]]]; [[[(-7)]]]; [[[(-7)]]]]))'   # certainly wrong
+        return '(Ok (VBatch [[[(-7)]]; [[(-7)]]; [[(-7)]]; [[(-7)]]; [[(-7)]]; [[(-7)]]]))'   # certainly wrong
     if tag == 'str':
         return '(Ok (VStr %s))' % C.zlist(d)
     if tag == 'ten':
@@ -396,7 +401,7 @@ def gen_chunk(tier, rng):
                     yield chunk_input(size, overlap, [n], [e], 1, 'int64')
     # every (size, overlap) up to 40: 1, 2, 3 and many chunks, 1-4 sequences
     counter = 0
-    reps = 1 if quick else 3
+    reps = 1 if quick else 2
     budget = 240 if quick else 700                  # chunk columns per case (literal size)
     for size in range(1, 41):
         for overlap in range(size):
@@ -460,7 +465,7 @@ def gen_round(tier, rng):
                     k += 1
                     yield {'kind': 'round', 'alpha': alpha, 'ign': ign, 's': s, 'allowN': allowN,
                            'force': k % 5 == 0, 'dtype': DTYPES[k % len(DTYPES)]}
-    for _ in range(500 if quick else 5000):
+    for _ in range(500 if quick else 3000):
         A = rng.randint(1, 8)
         alpha = rand_ascii(rng, A) if rng.random() < 0.7 else ''.join(rng.sample('ACGTNacgtn-.*', A))
         ign = rand_ascii(rng, rng.choice([0, 1, 1, 2, 3]), avoid=alpha)
@@ -501,7 +506,7 @@ def gen_back(tier, rng):
                     yield {'kind': 'back', 'alpha': alpha, 'ign': ['N', 'N', 'X', ''][k % 4], 'allowN': allowN,
                            'force': k % 5 == 0, 'X': [onehot(A, j) for j in t], 'dtype': DTYPES[k % len(DTYPES)],
                            'forms': {'ten': 'view'} if k % 3 == 0 else {}}
-    for _ in range(300 if quick else 3000):
+    for _ in range(300 if quick else 2000):
         A = rng.randint(1, 8)
         alpha = rand_ascii(rng, A) if rng.random() < 0.5 else ''.join(rng.sample('ACGTNWSY', A))
         ign = rand_ascii(rng, rng.choice([0, 1, 2]), avoid=alpha)
@@ -562,13 +567,13 @@ def gen_rc(tier, rng):
     k = 0
     for cm in FIXED_MAPS:
         keys = ''.join(a for a, _b in cm)
-        for s in all_strings(keys + ('' if 'N' in keys else 'N'), maxlen):
+        for s in all_strings(keys + ('' if 'N' in keys else 'N'), maxlen if cm is DNA or quick else maxlen - 1):
             k += 1
             allowN = k % 3 != 0
             yield {'kind': 'rcstr', 'cmap': cm, 'allowN': allowN, 's': s}
             yield {'kind': 'agree', 'cmap': cm, 'ign': 'N' if (k % 5 and 'N' not in keys) else '', 'allowN': allowN,
                    's': s, 'dtype': DTYPES[k % len(DTYPES)]}
-    for _ in range(400 if quick else 4000):
+    for _ in range(400 if quick else 2500):
         cm = rand_cmap(rng)
         keys = ''.join(a for a, _b in cm)
         pool = keys + ('N' if rng.random() < 0.5 else '')
@@ -758,7 +763,9 @@ def gen_sequences(tier, rng):
 
 
 def generate(tier, rng):
-    for g in (gen_chunk, gen_round, gen_back, gen_rc, gen_forms, gen_sequences):
+    global SHARD
+    SHARD = 100 if tier != 'thorough' else 200      # cases per coqc process (about 1 MB of memory per kB of literal)
+    for g in (gen_sequences, gen_chunk, gen_round, gen_back, gen_rc, gen_forms):
         for inp in g(tier, rng):
             yield inp
 
